@@ -652,6 +652,57 @@ def probe_eval(d):
                 break
         return ok, got.tolist(), want.tolist()
 
+    if kind in ('resume-landweber-default-omega', 'resume-pdhg-default-stepsizes'):
+        # step sizes left to the solver (estimated operator norm); the SAME operator object in every call
+        A = _pop(d['op'])
+        if kind == 'resume-landweber-default-omega':
+            rhs = _el(A.range, d['rhs'])
+
+            def run(st, it):
+                landweber(A, st[0], rhs, it)
+            init = lambda: [_el(A.domain, d['x0'])]
+        else:
+            f, g = _pf(d['f'], A.domain), _pf(d['g'], A.range)
+
+            def run(st, it):
+                pdhg(st[0], f, g, A, it, x_relax=st[1], y=st[2])
+
+            def init():
+                x = _el(A.domain, d['x0'])
+                return [x, x.copy(), A.range.zero()]
+        st = init()
+        run(st, N)
+        want = [_flat(v) for v in st]
+        ok, got = True, want
+        for n1 in range(N + 1):
+            st = init()
+            run(st, n1)
+            run(st, N - n1)
+            got = [_flat(v) for v in st]
+            ok = ok and all(_close(a, b) for a, b in zip(got, want))
+            if not ok:
+                break
+        return ok, [v.tolist() for v in got], [v.tolist() for v in want]
+    if kind == 'callback-douglas_rachford_pd':
+        Ls = [_pop(o) for o in d['ops']]
+        dom = Ls[0].domain if Ls else odl.rn(len(d['x0']))
+        f = _pf(d['f'], dom)
+        gs = [_pf(s, Li.range) for s, Li in zip(d['gs'], Ls)]
+        kw = {}
+        if d.get('ls') is not None:
+            kw['l'] = [_pf(s, Li.range) for s, Li in zip(d['ls'], Ls)]
+        tr, cb = rec()
+        x = _el(dom, d['x0'])
+        douglas_rachford_pd(x, f, gs, Ls, N, tau=d['tau'], sigma=d['sigma'], callback=cb, lam=d['lam'], **kw)
+        ok = len(tr) == N and (N == 0 or _close(tr[-1], _flat(x)))
+        # the k-th callback of a longer run is the final iterate of the run with niter = k+1 ... only for the
+        # LAST one (earlier callbacks see p1, which a shorter run returns as its x): check exactly that
+        for j in range(1, N + 1):
+            xj = _el(dom, d['x0'])
+            douglas_rachford_pd(xj, f, gs, Ls, j, tau=d['tau'], sigma=d['sigma'], lam=d['lam'], **kw)
+            ok = ok and _close(tr[j - 1], _flat(xj))
+        return ok, [t.tolist() for t in tr], _flat(x).tolist()
+
     # ---- resumption: n1 iterations then N - n1, for every n1, against one run of N; callbacks counted
     def run_factory():
         if kind == 'resume-landweber':
@@ -904,6 +955,34 @@ def probes(rng, tier):
              'theta': rng.choice([1, 0.5, 0]), 'x0': _vec(rng, n), 'niter': rng.randint(0, 7)}
         add(d, 'resume-pdhg-state-passed-back-f=%s-g=%s' % (_spec_name(f), _spec_name(g)),
             'pdhg with x_relax and y passed back: exact resumption of (x, x_relax, y) for every splitting')
+    for _ in range(3 * reps):
+        n, m = rng.randint(2, 4), rng.randint(2, 4)
+        M = _mat(rng, m, n)
+        if not any(any(r) for r in M):
+            M[0][0] = 1.0
+        d = {'kind': 'resume-landweber-default-omega', 'op': ['rn', M], 'rhs': _vec(rng, m), 'x0': _vec(rng, n),
+             'niter': rng.randint(2, 6)}
+        add(d, 'resume-landweber-default-omega-norm-estimate-not-cached',
+            'landweber with omega=None (1/||op||^2 from op.norm(estimate=True)), same operator object in both calls: '
+            'n then m iterations = n+m iterations')
+        d = {'kind': 'resume-pdhg-default-stepsizes', 'op': ['rn', M],
+             'f': ['trans', _vec(rng, n), ['l2sq']], 'g': ['trans', _vec(rng, m), ['l2sq']], 'x0': _vec(rng, n),
+             'niter': rng.randint(2, 6)}
+        add(d, 'resume-pdhg-default-stepsizes-norm-estimate-not-cached',
+            'pdhg with tau=sigma=None (from L.norm(estimate=True)), same operator object, x_relax and y passed back: '
+            'n then m iterations = n+m iterations')
+    for _ in range(10 * reps):
+        n = rng.randint(1, 4)
+        nops = rng.choice([0, 1, 2, 3])
+        ms = [rng.randint(1, 3) for _ in range(nops)]
+        d = {'kind': 'callback-douglas_rachford_pd', 'ops': [['rn', _mat(rng, m, n)] for m in ms],
+             'f': _rand_spec(rng, n, 'prox'), 'gs': [_rand_spec(rng, m, 'prox') for m in ms],
+             'ls': [['scaled', 2.0, ['l2sq']] for m in ms] if rng.random() < 0.3 else None,
+             'tau': _dy(rng), 'sigma': [_dy(rng) for _ in ms], 'lam': rng.choice([1.0, 0.5, 1.5]),
+             'x0': _vec(rng, n), 'niter': rng.randint(0, 6)}
+        add(d, 'callback-douglas_rachford_pd-nops=%d' % nops,
+            'douglas_rachford_pd: one callback per iteration, the k-th sees what a run with niter=k+1 returns, the '
+            'last one is the returned x')
     for _ in range(8 * reps):
         op, n, m, ps = _rand_op(rng, tier)
         f, g, phi = _rand_spec(rng, n, 'prox'), _rand_spec(rng, m, 'prox', ps), _rand_spec(rng, n, 'smooth')
